@@ -98,8 +98,17 @@ func (s *SpokFile) buildGraph(requested ...string) (*dag.Graph[string, task.Task
 	// DAG of tasks using the name as the unique id
 	graph := dag.New[string, task.Task]()
 
-	// TODO: Make this recursive so it will go through dependencies of dependencies
-	for _, name := range requested {
+	// Walk the requested tasks and then their dependencies, the dependencies of those
+	// dependencies and so on, visiting every task once
+	visited := make(map[string]bool)
+	pending := append([]string{}, requested...)
+	for len(pending) > 0 {
+		name := pending[0]
+		pending = pending[1:]
+		if visited[name] {
+			continue
+		}
+		visited[name] = true
 		requestedTask, ok := s.Tasks[name]
 		if !ok {
 			closest := s.findClosestMatch(name)
@@ -145,6 +154,9 @@ func (s *SpokFile) buildGraph(requested ...string) (*dag.Graph[string, task.Task
 			if err != nil {
 				return nil, fmt.Errorf("could not add edge %s -> %s: %w", dep, name, err)
 			}
+
+			// The dependency's own dependencies need looking at too
+			pending = append(pending, dep)
 		}
 	}
 
@@ -174,6 +186,11 @@ func (s *SpokFile) Run(stream iostream.IOStream, runner shell.Runner, force bool
 	runOrder, err := dag.Sort()
 	if err != nil {
 		return nil, err
+	}
+	if len(runOrder) != dag.Order() {
+		// The sort only gives up by itself when every task is part of a cycle, if some
+		// tasks could be sorted it silently leaves out the ones that could not
+		return nil, errors.New("task dependencies contain a cycle and cannot be sorted")
 	}
 	names := make([]string, 0, len(runOrder))
 	for _, taskToRun := range runOrder {
